@@ -135,6 +135,42 @@ fn gen_plan(rng: &mut Rng, k: u64) -> Plan {
     Plan { cfg, api, plain, steps }
 }
 
+/// Flush requests whose input ends exactly on / next to the compressor's automatic block
+/// threshold, issued into an output that is too small (so the automatic block and the marker
+/// meet while output is pending), followed by a complete drain and a conforming flush.
+fn gen_plan_threshold(rng: &mut Rng, k: u64) -> Plan {
+    let mut cfg = Config::nth(k.wrapping_mul(31) + 7);
+    cfg.wbits = 15;
+    if rng.chance(1, 3) {
+        cfg.level = 0;
+    }
+    let api = if rng.chance(1, 4) { Api::Deflate } else { Api::Compress };
+    let base = *rng.pick(&[31_745usize, 31_745, 63_490, 31_744, 32_768, 58_247, 65_528]);
+    let n1 = (base as i64 + rng.range(0, 2) as i64 - 1) as usize;
+    let mut plain = data::gen(rng, *rng.clone().pick(&[6usize, 14, 8]), n1);
+    let n2 = 1 + rng.below(3000);
+    let cls2 = rng.below(data::NUM_CLASSES);
+    plain.extend_from_slice(&data::gen(rng, cls2, n2));
+    let flushes: Vec<TDEFLFlush> = if api == Api::Deflate { vec![TDEFLFlush::Sync, TDEFLFlush::Full, TDEFLFlush::Partial] } else { vec![TDEFLFlush::Sync, TDEFLFlush::Full, TDEFLFlush::Partial, TDEFLFlush::SyncOpt, TDEFLFlush::PartialOpt] };
+    let f = *rng.pick(&flushes);
+    let small = *rng.pick(&[1usize, 7, 300, 4096]);
+    let big = 400_000;
+    let mut steps = Vec::new();
+    if rng.bool() {
+        let cut = rng.below(n1);
+        steps.push(CStep { chunk: cut, out_len: big, flush: TDEFLFlush::None });
+        steps.push(CStep { chunk: n1 - cut, out_len: small, flush: f });
+    } else {
+        steps.push(CStep { chunk: n1, out_len: small, flush: f });
+    }
+    // drain completely, then a conforming flush point (space to spare before and during)
+    steps.push(CStep { chunk: 0, out_len: big, flush: TDEFLFlush::None });
+    steps.push(CStep { chunk: 0, out_len: big, flush: TDEFLFlush::None });
+    steps.push(CStep { chunk: 0, out_len: big, flush: *rng.pick(&flushes) });
+    steps.push(CStep { chunk: n2 / 2, out_len: big, flush: *rng.pick(&flushes) });
+    Plan { cfg, api, plain, steps }
+}
+
 fn ends_with_marker(b: &[u8]) -> bool {
     b.len() >= 4 && b[b.len() - 4..] == [0x00, 0x00, 0xff, 0xff]
 }
@@ -319,15 +355,20 @@ fn twins(rep: &mut Report, rng: &mut Rng, k: u64) {
 pub fn run(ctx: &Ctx, rep: &mut Report) {
     let n = ctx.n(16_000, 300_000);
     let n_tw = ctx.n(3000, 50_000);
-    for k in ctx.cases(n + n_tw) {
+    let n_thr = ctx.n(1500, 30_000);
+    for k in ctx.cases(n + n_tw + n_thr) {
         rep.cur_case = k;
         crate::ctx::begin_case(k);
         let mut rng = ctx.rng("case", k);
         if k < n {
             let p = gen_plan(&mut rng, k);
             check_plan(rep, &p);
-        } else {
+        } else if k < n + n_tw {
             twins(rep, &mut rng, k);
+        } else {
+            let p = gen_plan_threshold(&mut rng, k);
+            check_plan(rep, &p);
+            rep.count("threshold_plans");
         }
     }
     if ctx.only_case.is_none() && ctx.tier != crate::ctx::Tier::Tiny {
